@@ -1,8 +1,286 @@
-(** Properties_C20.v — statements only (being filled in). *)
+(** Properties_C20.v — statements only.  Each theorem is closed by [exact <lemma>] and followed by Print Assumptions.
+    C20: external variables turn unknowns into inputs without disturbing the rest.
+
+    Model: ExternalDefs.v (marks, addDependency, the primaryExternalVariables block of analyseModel with its three
+    messages, hasExternalVariables, isStateRateBased, isToBeComputedAgain, generateEquationCode and the four generated
+    methods as statement sequences) on top of C05's AnalysisDefs.v (mIsExternal, third pass, NLA-unknown pruning,
+    EXTERNAL types).  [analyse_x true] is the code with fixes/C20-voi-external.diff, [analyse_x false] the code before. *)
 From Coq Require Import List Bool Arith.
-From LC Require Import AnalysisDefs AnalysisSpec ExternalDefs.
+From LC Require Import AnalysisDefs AnalysisSpec ExternalDefs ExternalEmitProofs ExternalMarkProofs ExternalProofs ExternalWitness.
 Import ListNotations.
 
-Example C20_stub : voi_fix = true.
-Proof. reflexivity. Qed.
-Print Assumptions C20_stub.
+(** ** The model is C05's *)
+
+(** Without the repair, the analysis with marks is literally AnalysisDefs.analyse_ext on the marks that name variables of
+    the model; without marks both codes are C05's [analyse]. *)
+Theorem C20_unrepaired_model_is_analyse_ext : forall s marks,
+  xr_outcome (analyse_x false s marks) = analyse_ext s (local_marks marks).
+Proof. exact ExternalProofs.analyse_x_unfixed. Qed.
+Print Assumptions C20_unrepaired_model_is_analyse_ext.
+
+Theorem C20_no_marks_is_analyse : forall fixed s, xr_outcome (analyse_x fixed s []) = analyse s.
+Proof. exact ExternalProofs.analyse_x_no_marks. Qed.
+Print Assumptions C20_no_marks_is_analyse.
+
+(** ** What marks do (the lemma everything else rests on)
+
+    For marks that name variables of the model (or of another model), the whole analysis is the UNMARKED first stages
+    (build, initial-value checks, analyseEquationAst) followed by the do/while loop and the second half of analyseModel
+    run on the unmarked internal variables re-marked pointwise: mIsExternal / mDependencies set at the position on which
+    the first mark of its class lands, unless that internal variable is the variable of integration. *)
+Theorem C20_marks_characterised : forall s marks, marks_in_range s marks ->
+  (xr_outcome (analyse_x true s marks), xr_has_ext (analyse_x true s marks)) = spec_x s marks.
+Proof. exact ExternalMarkProofs.analyse_x_spec. Qed.
+Print Assumptions C20_marks_characterised.
+
+(** ** externals_exact *)
+
+(** In a valid result a variable is of type EXTERNAL exactly when its class is marked through a variable of the model
+    and it is not the variable of integration. *)
+Theorem C20_externals_exact : forall s marks r,
+  marks_in_range s marks -> xr_outcome (analyse_x true s marks) = Done r -> valid_type (r_type r) = true ->
+  forall a, In a (all_avars r) ->
+    (av_type a = AExternal <->
+     In (cls_of s (av_var a)) (marked_classes s marks) /\ is_voi_class s r (cls_of s (av_var a)) = false).
+Proof. exact ExternalProofs.externals_exact. Qed.
+Print Assumptions C20_externals_exact.
+
+(* NOT PROVED: "... with a placeholder equation of type EXTERNAL": forall a, av_type a = AExternal ->
+   exists e, av_eqs a = [ae_pos e] /\ In e (r_eqs r) /\ ae_type e = QExternal /\ ae_vars e = [av_var a].
+   It needs C05's one-definer invariant (AnalysisOwnProofs.loop_own, proved there for loops without external variables)
+   carried through the third pass, the NLA-unknown pruning and the packaging.  Evaluated on every run: on the
+   implementation's output for every valid marked case (checks/c20.py oracle (a)) and on the extracted model for all
+   small systems (ocaml/external/driver.ml search: placeholder_bad = 0 of 284 790 valid marked analyses). *)
+
+(** Before the repair the "not the variable of integration" part is FALSE: the variable of integration marked as
+    external gets the message and still becomes an EXTERNAL variable that no equation computes. *)
+Theorem C20_externals_exact_voi_refuted :
+  match result_of (analyse_x false sysA []), result_of (analyse_x false sysA mark_voi) with
+  | Some r0, Some r1 =>
+      valid_type (r_type r0) = true /\ valid_type (r_type r1) = true /\
+      xr_messages (analyse_x false sysA mark_voi) = [mkXissue XVoi (XLocal (0, 0))] /\
+      length (r_vars r1) = S (length (r_vars r0)) /\
+      xr_has_ext (analyse_x false sysA mark_voi) = true /\
+      exists a, In a (r_vars r1) /\ av_type a = AExternal /\ voi_class sysA r1 = Some (cls_of sysA (av_var a)) /\ av_eqs a = []
+  | _, _ => False
+  end.
+Proof. exact ExternalWitness.voi_marked_unfixed. Qed.
+Print Assumptions C20_externals_exact_voi_refuted.
+
+(** ** marking_messages *)
+
+(** A variable of another model: never changes the analysis, and is reported. *)
+Theorem C20_foreign_marks_ignored : forall s marks, marks_in_range s marks ->
+  xr_outcome (analyse_x true s marks) = xr_outcome (analyse_x true s (filter is_local_mark marks)) /\
+  xr_has_ext (analyse_x true s marks) = xr_has_ext (analyse_x true s (filter is_local_mark marks)).
+Proof. exact ExternalProofs.foreign_marks_ignored. Qed.
+Print Assumptions C20_foreign_marks_ignored.
+
+Theorem C20_foreign_mark_message : forall s marks ivs0 es0,
+  resolvable s = true -> build s = Some (ivs0, es0) -> check_inits s ivs0 0 s = [] ->
+  vs_issues (analyse_asts s ivs0 es0) = [] ->
+  forall m k, In m marks -> xm_var m = XForeign k ->
+  In (mkXissue XDifferentModel (XForeign k)) (xr_messages (analyse_x true s marks)).
+Proof. exact ExternalProofs.foreign_message. Qed.
+Print Assumptions C20_foreign_mark_message.
+
+(** A non-primary member of an equivalence class: which member of a class carries the mark never changes the analysis
+    (same declared dependencies); a class that is marked only through variables other than the one the analyser holds
+    for it gets a message naming that primary variable. *)
+Theorem C20_member_choice_irrelevant : forall s marks marks',
+  marks_in_range s marks -> marks_in_range s marks' -> Forall2 (same_class_mark s) marks marks' ->
+  xr_outcome (analyse_x true s marks) = xr_outcome (analyse_x true s marks') /\
+  xr_has_ext (analyse_x true s marks) = xr_has_ext (analyse_x true s marks').
+Proof. exact ExternalProofs.member_choice_irrelevant. Qed.
+Print Assumptions C20_member_choice_irrelevant.
+
+Theorem C20_non_primary_mark_message : forall s marks ivs0 es0,
+  resolvable s = true -> build s = Some (ivs0, es0) -> check_inits s ivs0 0 s = [] ->
+  vs_issues (analyse_asts s ivs0 es0) = [] -> marks_in_range s marks ->
+  forall m r, In m marks -> xm_var m = XLocal r ->
+  (forall m' r', In m' marks -> xm_var m' = XLocal r' -> cls_of s r' = cls_of s r -> r' <> primary_at_marking s r) ->
+  exists key rule, cls_of s key = cls_of s r /\ (rule = XVoi \/ rule = XUsePrimary) /\
+                   In (mkXissue rule (XLocal key)) (xr_messages (analyse_x true s marks)).
+Proof. exact ExternalProofs.non_primary_message. Qed.
+Print Assumptions C20_non_primary_mark_message.
+(* NOT PROVED, compared exactly on every run: a class marked more than once (two objects) also gets the message. *)
+
+(** The variable of integration (or any variable equivalent to it): with the repair, never changes the analysis, and
+    is reported.  (Before the repair: C20_externals_exact_voi_refuted.) *)
+Theorem C20_voi_marks_ignored : forall s marks, marks_in_range s marks ->
+  xr_outcome (analyse_x true s marks) = xr_outcome (analyse_x true s (filter (fun m => negb (is_voi_mark s m)) marks)) /\
+  xr_has_ext (analyse_x true s marks) = xr_has_ext (analyse_x true s (filter (fun m => negb (is_voi_mark s m)) marks)).
+Proof. exact ExternalProofs.voi_marks_ignored. Qed.
+Print Assumptions C20_voi_marks_ignored.
+
+Theorem C20_voi_mark_message : forall s marks ivs0 es0,
+  resolvable s = true -> build s = Some (ivs0, es0) -> check_inits s ivs0 0 s = [] ->
+  vs_issues (analyse_asts s ivs0 es0) = [] -> marks_in_range s marks ->
+  forall m r, In m marks -> xm_var m = XLocal r -> is_voi_mark s m = true ->
+  exists key, cls_of s key = cls_of s r /\ In (mkXissue XVoi (XLocal key)) (xr_messages (analyse_x true s marks)).
+Proof. exact ExternalProofs.voi_message. Qed.
+Print Assumptions C20_voi_mark_message.
+
+Example C20_marking_messages_nonvacuous :
+  xr_outcome (analyse_x true sysA mark_voi) = xr_outcome (analyse_x true sysA []) /\
+  xr_outcome (analyse_x true sysA mark_voi_member) = xr_outcome (analyse_x true sysA []) /\
+  xr_has_ext (analyse_x true sysA mark_voi) = false /\
+  xr_messages (analyse_x true sysA mark_voi) = [mkXissue XVoi (XLocal (0, 0))] /\
+  xr_messages (analyse_x true sysA mark_voi_member) = [mkXissue XVoi (XLocal (0, 0))].
+Proof. exact ExternalWitness.voi_marked_fixed. Qed.
+Print Assumptions C20_marking_messages_nonvacuous.
+
+Example C20_marks_examples :
+  option_map (ext_classes sysA) (result_of (analyse_x true sysA mark_k)) = Some [2] /\
+  option_map (ext_classes sysA) (result_of (analyse_x true sysA mark_y_nonprimary)) = Some [3] /\
+  xr_messages (analyse_x true sysA mark_y_nonprimary) = [mkXissue XUsePrimary (XLocal (0, 3))] /\
+  xr_outcome (analyse_x true sysA mark_foreign) = xr_outcome (analyse_x true sysA []) /\
+  xr_messages (analyse_x true sysA mark_foreign) = [mkXissue XDifferentModel (XForeign 0)] /\
+  option_map (fun r => definition_of sysA r 1) (result_of (analyse_x true sysA mark_z_dep_y)) =
+  option_map (fun r => definition_of sysA r 1) (result_of (analyse_x true sysA [])) /\
+  depends_on sysA 1 [2] = true /\ depends_on sysA 2 [4] = true.
+Proof. exact ExternalWitness.marks_examples. Qed.
+Print Assumptions C20_marks_examples.
+
+(** AnalyserExternalVariable::addDependency refuses the variable itself, an equivalent one, a variable of another model
+    and a repetition. *)
+Example C20_add_dependency_example :
+  make_mark sysA (XLocal (1, 1)) [XLocal (0, 1); XLocal (0, 3); XLocal (1, 0); XLocal (1, 1); XForeign 1; XLocal (0, 3); XLocal (1, 2)] =
+  (mkXmark (XLocal (1, 1)) [XLocal (0, 1); XLocal (0, 3); XLocal (1, 0); XLocal (1, 2)], [true; true; true; false; false; false; true]).
+Proof. exact ExternalWitness.add_dependency_example. Qed.
+Print Assumptions C20_add_dependency_example.
+
+(** ** independent_unchanged *)
+
+(* NOT PROVED: forall s marks r0 r1 k,
+     marks_in_range s marks -> xr_outcome (analyse_x true s []) = Done r0 -> valid_type (r_type r0) = true ->
+     xr_outcome (analyse_x true s marks) = Done r1 -> valid_type (r_type r1) = true ->
+     depends_on s k (marked_classes s marks) = false -> definition_of s r1 k = definition_of s r0 k.
+   ([depends_on] is the UNDIRECTED notion: k is linked to a marked class by a chain of equations, ExternalDefs.linked_classes;
+   [definition_of] = (type, [(id, type) of the equations computing it]).)  By C20_marks_characterised the two runs enter the
+   loop with internal variables that differ only in mIsExternal / mDependencies at the marked positions; what is missing
+   is the non-interference of the loop, whose sweeps and pass switches are global.
+   Evidence: exhaustive over all one-component systems with <= 4 classes and <= 3 equations / <= 3 classes and <= 4
+   equations drawn from 5 shapes, every marking of 1 or 2 classes (ocaml/external/driver.ml search: independent_changed = 0
+   of 240 162 comparisons), and on the implementation for every valid generated case of every run (checks/c20.py oracle (b)). *)
+
+Example C20_independent_unchanged_example :
+  match result_of (analyse_x true sysI []), result_of (analyse_x true sysI mark_a) with
+  | Some r0, Some r1 =>
+      valid_type (r_type r0) = true /\ valid_type (r_type r1) = true /\
+      depends_on sysI 2 (marked_classes sysI mark_a) = false /\ depends_on sysI 3 (marked_classes sysI mark_a) = false /\
+      definition_of sysI r1 2 = definition_of sysI r0 2 /\ definition_of sysI r1 3 = definition_of sysI r0 3 /\
+      depends_on sysI 1 (marked_classes sysI mark_a) = true /\
+      definition_of sysI r0 1 = Some (ACompConst, [(Some 1002, QVarBasedConst)]) /\
+      definition_of sysI r1 1 = Some (AAlgebraic, [(Some 1002, QAlgebraic)])
+  | _, _ => False
+  end.
+Proof. exact ExternalWitness.independent_example. Qed.
+Print Assumptions C20_independent_unchanged_example.
+
+(** ** underconstrained_rescued *)
+
+(** What holds in general: a class marked as external is never among the variables reported as unused ("the type of
+    variable ... is unknown"), whatever else the model suffers from (the third pass gives every external variable that
+    is still unknown the type INITIALISED, and no type is ever lost). *)
+Theorem C20_underconstrained_rescued_partial : forall s marks r,
+  marks_in_range s marks -> xr_outcome (analyse_x true s marks) = Done r ->
+  forall i, In i (r_issues r) -> is_rule i = RUnused -> ~ In (cls_of s (is_item i)) (marked_classes s marks).
+Proof. exact ExternalProofs.marked_never_unused. Qed.
+Print Assumptions C20_underconstrained_rescued_partial.
+
+(** "A model whose only reported problem is unused variables becomes valid when they are marked" is FALSE: the analyser
+    reports one kind of problem at a time. *)
+Theorem C20_underconstrained_rescued_refuted :
+  option_map (fun r => (r_type r, map is_rule (r_issues r))) (result_of (analyse_x true sysU [])) =
+    Some (MUnderconstrained, [RUnused; RUnused]) /\
+  option_map (fun r => (r_type r, map is_rule (r_issues r))) (result_of (analyse_x true sysU mark_unused)) =
+    Some (MOverconstrained, [RComputedTwice]).
+Proof. exact ExternalWitness.rescue_naive_refuted. Qed.
+Print Assumptions C20_underconstrained_rescued_refuted.
+
+(* NOT PROVED: if the system with the unknown classes given an initial value (i.e. as constants) is valid, then the system
+   with those classes marked as external is valid.  Evidence: exhaustive search (13 619 such small systems, all rescued);
+   on the implementation: two variants per generated system on every run (checks/c20.py oracle (d)). *)
+
+Example C20_underconstrained_rescued_example :
+  option_map (fun r => (r_type r, r_issues r)) (result_of (analyse_x true sysA_no_k [])) =
+    Some (MUnderconstrained, [mkIssue RUnused (0, 2)]) /\
+  option_map (fun r => (r_type r, ext_classes sysA_no_k r)) (result_of (analyse_x true sysA_no_k mark_k)) = Some (MOde, [2]).
+Proof. exact ExternalWitness.rescue_example. Qed.
+Print Assumptions C20_underconstrained_rescued_example.
+
+(** ** callback_after_dependencies *)
+
+(** In computeComputedConstants, computeRates and computeVariables, when the dependency graph of the equations is acyclic
+    (a rank decreasing along every dependency the generator may follow, constant on an NLA system), the code of an
+    external equation — the callback — is emitted only after every dependency that the generator wants (not an ODE, not
+    a constant, and in computeVariables: still to be generated or to be computed again) has been emitted in that method
+    (itself, or its NLA system through a sibling) or had already been generated by an earlier method. *)
+Theorem C20_callback_after_dependencies_rates : forall r rank rem, acyclic_by r rank -> NoDup rem ->
+  ordered_from r true [] rem [] (eq_positions (fst (rates_body r rem))) = true.
+Proof. exact ExternalEmitProofs.rates_body_ordered. Qed.
+Print Assumptions C20_callback_after_dependencies_rates.
+
+Theorem C20_callback_after_dependencies_constants : forall r rank rem, acyclic_by r rank -> NoDup rem ->
+  ordered_from r true [] rem [] (eq_positions (fst (computed_constants_body r rem))) = true.
+Proof. exact ExternalEmitProofs.computed_constants_body_ordered. Qed.
+Print Assumptions C20_callback_after_dependencies_constants.
+
+Theorem C20_callback_after_dependencies_variables : forall r rank rem, acyclic_by r rank -> NoDup (all_pos r) ->
+  ordered_from r false rem (all_pos r) [] (eq_positions (variables_body r rem)) = true.
+Proof. exact ExternalEmitProofs.variables_body_ordered. Qed.
+Print Assumptions C20_callback_after_dependencies_variables.
+
+(** [ordered_from], spelled out *)
+Theorem C20_ordered_from_means : forall r icc efd rem0 code done,
+  ordered_from r icc efd rem0 done code = true ->
+  forall l1 p l2 e d de, code = l1 ++ p :: l2 -> find_aeq r p = Some e -> ae_type e = QExternal ->
+    In d (ae_deps e) -> find_aeq r d = Some de -> dep_wanted r icc efd de = true -> mem_nat d rem0 = true ->
+    In d done \/ exists q, In q l1 /\ (d = q \/ exists eq, find_aeq r q = Some eq /\ In d (ae_sibs eq)).
+Proof. exact ExternalEmitProofs.ordered_from_spelled. Qed.
+Print Assumptions C20_ordered_from_means.
+
+Example C20_callback_after_dependencies_nonvacuous :
+  match result_of (analyse_x true sysA mark_z_dep_y) with
+  | Some r =>
+      acyclic_by r (fun p => p) /\ NoDup (all_pos r) /\
+      b_vars (method_bodies r) = [SEq 1; SEq 2] /\
+      option_map ae_type (find_aeq r 2) = Some QExternal /\ option_map ae_deps (find_aeq r 2) = Some [1] /\
+      option_map ae_type (find_aeq r 1) = Some QAlgebraic
+  | None => False
+  end.
+Proof. exact ExternalWitness.callback_order_example. Qed.
+Print Assumptions C20_callback_after_dependencies_nonvacuous.
+
+(** The claim is FALSE for initialiseVariables (known finding C20-initialise-callback-before-dependencies): the callback
+    is emitted there although the equation of a declared dependency is emitted nowhere in that method ... *)
+Theorem C20_callback_in_initialise_refuted :
+  option_map init_uncomputed_dependency (result_of (analyse_x true sysA mark_z_dep_y)) = Some true.
+Proof. exact ExternalWitness.initialise_refuted. Qed.
+Print Assumptions C20_callback_in_initialise_refuted.
+
+(** ... and without acyclicity (known finding C20-cyclic-declared-dependency): a declared dependency computed from the
+    external variable itself is emitted AFTER the callback. *)
+Theorem C20_callback_cyclic_refuted :
+  match result_of (analyse_x true sysC mark_cyclic) with
+  | Some r =>
+      valid_type (r_type r) = true /\
+      b_vars (method_bodies r) = [SEq 1; SEq 0] /\
+      option_map ae_type (find_aeq r 1) = Some QExternal /\ option_map ae_deps (find_aeq r 1) = Some [0] /\
+      ordered_from r false [] (all_pos r) [] (eq_positions (b_vars (method_bodies r))) = false /\
+      forall rank, ~ acyclic_by r rank
+  | None => False
+  end.
+Proof. exact ExternalWitness.cyclic_refuted. Qed.
+Print Assumptions C20_callback_cyclic_refuted.
+
+(** the hypothesis NoDup (all_pos r) holds for every result of the analysis *)
+Theorem C20_result_positions_distinct : forall fixed s marks r, xr_outcome (analyse_x fixed s marks) = Done r -> NoDup (all_pos r).
+Proof. exact ExternalProofs.analysis_pos_nodup. Qed.
+Print Assumptions C20_result_positions_distinct.
+
+(* NOT PROVED: the dependencies of an EXTERNAL equation are exactly the equations computing the DECLARED dependencies
+   (make_aeq: the Variable objects recorded at marking time are looked up through their internal variable).  Compared
+   with the library on every run (E= field), and the emission order of every generated program is compared with the
+   model's. *)
